@@ -121,6 +121,11 @@ impl Prop for C16 {
                 }
             }
         }
+        // a line longer than 65 536 units: word offsets inside a line beyond 16 bits ('L' = one
+        // word of 65 541 units shared by both texts)
+        for (o, n) in [("L x\n", "L x\n"), ("x L x x\n", "x L x x\n"), ("x\nL.x", "L.x")] {
+            v.push(Shape { old: o.to_string(), new: n.to_string(), alg: Algorithm::Myers, dl: Dl::NoDeadline, nl: None });
+        }
         // the line-count gate (upper_seq_ratio < 0.5): one line against four
         for (o, n) in [("x x\n", "x x\nx\nx\nx\n"), ("x\nx\nx\nx x\n", "x x\n"), ("x x\n", "x\nx\nx"), ("x.x", "x\nx\nx\nx.x")] {
             for alg in ALGS {
@@ -217,6 +222,9 @@ impl Prop for C16 {
             }
             if op.tag() == DiffTag::Replace {
                 engine::witness("replace_ops_expanded");
+                if any_emph && plain.iter().any(|p| p.value().chars().len() > 65_536) {
+                    engine::witness("replace_ops_in_a_line_longer_than_65536_units");
+                }
                 if any_emph {
                     engine::witness("replace_ops_with_emphasis");
                 } else {
@@ -248,10 +256,10 @@ impl Prop for C16 {
                 "similar::text::utils::upper_seq_ratio, similar::get_diff_ratio (0.5 gates, real f32)",
                 "capture_diff_deadline(Patience, MultiLookup, ..) with the H1 clock",
             ],
-            bounds: format!("(at most {} symbolic words in both texts together, {} under the symbolic clock) line texts of 0..={} lines per side built from the line shapes {:?} (words symbolic, separators space / punctuation), LF / CRLF / lone CR / unterminated last line, plus 1-against-4-line shapes for the line-count gate; x 3 algorithms x inline deadline {{None, already expired, built-in 500 ms under the symbolic clock}}; Myers without deadline also with TextDiffConfig::newline_terminated(false)", match tier { Tier::Quick => 6, Tier::Thorough => 7 }, match tier { Tier::Quick => 4, Tier::Thorough => 5 }, match tier { Tier::Quick => 2, Tier::Thorough => 3 }, match tier { Tier::Quick => &LINE_SHAPES[..3], Tier::Thorough => &LINE_SHAPES[..] }),
+            bounds: format!("(at most {} symbolic words in both texts together, {} under the symbolic clock) line texts of 0..={} lines per side built from the line shapes {:?} (words symbolic, separators space / punctuation), LF / CRLF / lone CR / unterminated last line, plus 1-against-4-line shapes for the line-count gate; x 3 algorithms x inline deadline {{None, already expired, built-in 500 ms under the symbolic clock}}; Myers without deadline also with TextDiffConfig::newline_terminated(false); plus three texts with a line of more than 65 536 units (one shared word of 65 541 units, the words after it symbolic), Myers, no deadline", match tier { Tier::Quick => 6, Tier::Thorough => 7 }, match tier { Tier::Quick => 4, Tier::Thorough => 5 }, match tier { Tier::Quick => 2, Tier::Thorough => 3 }, match tier { Tier::Quick => &LINE_SHAPES[..3], Tier::Thorough => &LINE_SHAPES[..] }),
             outside: "the unicode word segmentation of real str / [u8] (third-party code; SymTxt's word tokenizer stands in); longer lines and texts".into(),
             assumptions: vec!["feature set text+inline+unicode+bytes; with `unicode` the inline code calls tokenize_unicode_words, which for SymTxt is the harness tokenizer (runs of ordinary characters, whitespace runs, single punctuation)".into()],
-            required_witnesses: vec!["replace_ops_expanded", "replace_ops_with_emphasis", "replace_ops_below_a_ratio_gate_or_without_common_words", "paths_where_the_inline_deadline_fired", "paths_where_the_default_inline_deadline_was_consulted", "paths_with_newline_terminated_overridden"],
+            required_witnesses: vec!["replace_ops_expanded", "replace_ops_with_emphasis", "replace_ops_below_a_ratio_gate_or_without_common_words", "paths_where_the_inline_deadline_fired", "paths_where_the_default_inline_deadline_was_consulted", "paths_with_newline_terminated_overridden", "replace_ops_in_a_line_longer_than_65536_units"],
             rule: "one state = one explored path (equality pattern of the characters x expiry point)".into(),
         }
     }
